@@ -731,14 +731,14 @@ impl<'a> DnaStringSlice<'a> {
         let whole_blocks = self.len() >> 5;
 
         // iterate over the whole K=32 blocks
-        for block in (0..whole_blocks).step_by(32) {
-            let b1: Kmer32 = self.get_kmer(block);
-            let b2: Kmer32 = self.get_kmer(block);
+        for block in 0..whole_blocks {
+            let b1: Kmer32 = self.get_kmer(block << 5);
+            let b2: Kmer32 = other.get_kmer(block << 5);
             ndiffs += count_diff_2_bit_packed(b1.to_u64(), b2.to_u64());
         }
 
         // iterate over trailing bases
-        for pos in (whole_blocks >> 5)..self.len() {
+        for pos in (whole_blocks << 5)..self.len() {
             if self.get(pos) != other.get(pos) {
                 ndiffs += 1;
             }
